@@ -19,8 +19,9 @@
                  every candidate (ASortEnd perm): with values changing between
                  comparisons nothing more can be said
      ASelect     one iteration of the selection loop under the entry's segment
-                 lock: it reads the LIVE connection set of the snapshotted
-                 peerInfo object through its pointer
+                 lock: it re-reads firstSeen (grace re-check) and reads the LIVE
+                 connection set of the snapshotted peerInfo object through its
+                 pointer
      AFinish     CloseWithError on every selected connection (outside locks)
    Any other operation's step can be scheduled between them, except that
    Protect/Unprotect block while plk is read-held (snapshot phase), the
@@ -139,6 +140,41 @@ Definition with_dph (cs : cstate) (d : dphase) : cstate :=
   mkCS (cs_s cs) (cs_ph cs) (cs_gstart cs) (cs_psnap cs) (cs_cands cs) (cs_ncand cs) (cs_sel cs) (cs_added1 cs) (cs_added2 cs)
        (cs_late cs) d.
 
+(* one iteration of the selection loop.  [recheck] = true is the code since
+   "fix: connmgr: re-check the grace period in the trim's selection loop": an
+   entry whose firstSeen (read under the segment lock, now) is after
+   gracePeriodStart is skipped.  [recheck] = false is the loop before that fix
+   (kept to show that the strengthened clause (b) is not vacuous). *)
+Definition select_step (recheck : bool) (cfg : config) (cs : cstate) : option (cstate * list event) :=
+  let s := cs_s cs in
+      match cs_ph cs with
+      | TSel [] _ => Some (with_ph cs TClose, [])
+      | TSel (p :: r) tg =>
+          if tg <=? 0 then Some (with_ph cs TClose, []) else
+          match find (fun e => Nat.eqb (ce_p e) p && negb (ce_done e)) (cs_cands cs) with
+          | None => Some (with_ph cs (TSel r tg), [])
+          | Some e =>
+              let cands1 := mark_done p (cs_cands cs) in
+              if negb (ce_live e) then
+                Some (mkCS s (TSel r tg) (cs_gstart cs) (cs_psnap cs) cands1 (cs_ncand cs) (cs_sel cs)
+                           (cs_added1 cs) (cs_added2 cs) (cs_late cs) (cs_dph cs), [])
+              else
+                let pi := peer_at s p in
+                if recheck && (cs_gstart cs <? p_first pi) then
+                  Some (mkCS s (TSel r tg) (cs_gstart cs) (cs_psnap cs) cands1 (cs_ncand cs) (cs_sel cs)
+                             (cs_added1 cs) (cs_added2 cs) (cs_late cs) (cs_dph cs), [])
+                else if is_nil (p_conns pi) && p_temp pi then
+                  let s' := set_peer s p nopeer in
+                  Some (mkCS s' (TSel r tg) (cs_gstart cs) (cs_psnap cs) (relive s' cands1) (cs_ncand cs)
+                             (cs_sel cs) (cs_added1 cs) (cs_added2 cs) (cs_late cs) (cs_dph cs), [EPrune p])
+                else
+                  Some (mkCS s (TSel r (tg - zlen (p_conns pi))) (cs_gstart cs) (cs_psnap cs) cands1
+                             (cs_ncand cs) (cs_sel cs ++ map (pair p) (p_conns pi)) (cs_added1 cs) (cs_added2 cs)
+                             (cs_late cs) (cs_dph cs), [])
+          end
+      | _ => None
+      end.
+
 (* ---- one atomic step; None = not enabled ------------------------------------------- *)
 Definition cstep (cfg : config) (cs : cstate) (a : act) : option (cstate * list event) :=
   let s := cs_s cs in
@@ -228,31 +264,7 @@ Definition cstep (cfg : config) (cs : cstate) (a : act) : option (cstate * list 
           then Some (with_ph cs (TSel perm (cs_ncand cs - c_low cfg)), []) else None
       | _ => None
       end
-  | ASelect =>
-      match cs_ph cs with
-      | TSel [] _ => Some (with_ph cs TClose, [])
-      | TSel (p :: r) tg =>
-          if tg <=? 0 then Some (with_ph cs TClose, []) else
-          match find (fun e => Nat.eqb (ce_p e) p && negb (ce_done e)) (cs_cands cs) with
-          | None => Some (with_ph cs (TSel r tg), [])
-          | Some e =>
-              let cands1 := mark_done p (cs_cands cs) in
-              if negb (ce_live e) then
-                Some (mkCS s (TSel r tg) (cs_gstart cs) (cs_psnap cs) cands1 (cs_ncand cs) (cs_sel cs)
-                           (cs_added1 cs) (cs_added2 cs) (cs_late cs) (cs_dph cs), [])
-              else
-                let pi := peer_at s p in
-                if is_nil (p_conns pi) && p_temp pi then
-                  let s' := set_peer s p nopeer in
-                  Some (mkCS s' (TSel r tg) (cs_gstart cs) (cs_psnap cs) (relive s' cands1) (cs_ncand cs)
-                             (cs_sel cs) (cs_added1 cs) (cs_added2 cs) (cs_late cs) (cs_dph cs), [EPrune p])
-                else
-                  Some (mkCS s (TSel r (tg - zlen (p_conns pi))) (cs_gstart cs) (cs_psnap cs) cands1
-                             (cs_ncand cs) (cs_sel cs ++ map (pair p) (p_conns pi)) (cs_added1 cs) (cs_added2 cs)
-                             (cs_late cs) (cs_dph cs), [])
-          end
-      | _ => None
-      end
+  | ASelect => select_step true cfg cs
   | AFinish =>
       match cs_ph cs with
       | TClose => Some (with_ph cs TIdle, [EClosed (cs_sel cs)])
@@ -268,5 +280,19 @@ Fixpoint crun (cfg : config) (cs : cstate) (sched : list act) : cstate * list ev
       match cstep cfg cs a with
       | Some (cs', ev) => let '(cf, evs) := crun cfg cs' r in (cf, ev ++ evs)
       | None => crun cfg cs r
+      end
+  end.
+
+(* the LTS with the selection loop as it was before the fix *)
+Definition cstep_old (cfg : config) (cs : cstate) (a : act) : option (cstate * list event) :=
+  match a with ASelect => select_step false cfg cs | _ => cstep cfg cs a end.
+
+Fixpoint crun_old (cfg : config) (cs : cstate) (sched : list act) : cstate * list event :=
+  match sched with
+  | [] => (cs, [])
+  | a :: r =>
+      match cstep_old cfg cs a with
+      | Some (cs', ev) => let '(cf, evs) := crun_old cfg cs' r in (cf, ev ++ evs)
+      | None => crun_old cfg cs r
       end
   end.
